@@ -657,6 +657,26 @@ def _merge_acctinfo(args: ArgsType, markup: BytesIO) -> None:
     args.maps.insert(1, ChainMap(*parsed_args))  # type: ignore
 
 
+def _discover_accounts(args: ArgsType, password: str) -> None:
+    """
+    --all: request the accounts the server lists as ACTIVE, and only those.
+    """
+    acctinfo = _request_acctinfo(args, password)
+    _merge_acctinfo(args, acctinfo)
+
+    # An account type for which the server lists nothing ACTIVE mustn't fall
+    # back to accounts configured earlier (now inactive, or no longer listed).
+    accttypes = (
+        "checking",
+        "savings",
+        "moneymrkt",
+        "creditline",
+        "creditcard",
+        "investment",
+    )
+    args.maps.insert(2, {accttype: [] for accttype in accttypes})  # type: ignore
+
+
 def request_stmt(args: ArgsType) -> None:
     """
     Send *STMTRQ
@@ -665,8 +685,7 @@ def request_stmt(args: ArgsType) -> None:
     password = get_passwd(args)
 
     if args["all"]:
-        acctinfo = _request_acctinfo(args, password)
-        _merge_acctinfo(args, acctinfo)
+        _discover_accounts(args, password)
 
     stmtrqs: List[Union[StmtRq, CcStmtRq, InvStmtRq]] = []
     for accttype in ("checking", "savings", "moneymrkt", "creditline"):
@@ -746,8 +765,7 @@ def request_stmtend(args: ArgsType) -> None:
     password = get_passwd(args)
 
     if args["all"]:
-        acctinfo = _request_acctinfo(args, password)
-        _merge_acctinfo(args, acctinfo)
+        _discover_accounts(args, password)
 
     stmtendrqs: List[Union[StmtEndRq, CcStmtEndRq]] = []
     for accttype in ("checking", "savings", "moneymrkt", "creditline"):
